@@ -89,6 +89,8 @@ pub mod futures;
 mod local_auto;
 mod local_manual;
 mod manual;
+#[cfg(folo_verif)]
+pub mod verif;
 
 #[cfg(test)]
 mod test_helpers;
